@@ -56,7 +56,7 @@ def obligations(tier):
     for t, p, n, tm in ((1, 0, 3, ""), (0, 3, 2, ""), (1, 0, 0, ' "?" '), (1, 3, 0, "[?,?]")):
         L.append(ob("uj/t=%d/p=%d/n=%d/%s" % (t, p, n, tm), ".", "VerifC17UJ", [t, p, n, tm], covers=["called", "accepted"], max_seconds=900, max_paths=60000))
     for t, p, n, tm in ((2, 0, 3, ""), (4, 3, 2, ""), (2, 0, 0, '"\\??"'), (2, 7, 0, '"??"'), (4, 0, 0, "nul?")):
-        L.append(ob("ut/t=%d/p=%d/n=%d/%s" % (t, p, n, tm), ".", "VerifC17UT", [t, p, n, tm], covers=["called"], max_seconds=900, max_paths=60000))
+        L.append(ob("ut/t=%d/p=%d/n=%d/%s" % (t, p, n, tm), ".", "VerifC17UT", [t, p, n, tm], covers=["null"] if tm.startswith("nul") else ["called"], max_seconds=900, max_paths=60000))
     if only:
         L = [o for o in L if re.match(only, o["id"])]
     return L
